@@ -58,17 +58,22 @@ def rollout(case):
     return {'brax_error': f'{type(e).__name__}: {str(e)[:300]}', 'tb': traceback.format_exc()[-1500:]}
 
 
-def float_state(model, r, qscale=1.0, qdscale=1.0, root_height=None):
-  """Seeded generic float state for a ModelSpace model."""
+def float_state(model, r, qscale=1.0, qdscale=1.0, root_height=None, special=0.0):
+  """Seeded generic float state for a ModelSpace model.  With probability `special` a coordinate takes a boundary
+  value instead (joint coordinate exactly 0 or +-1e-4; root orientation an exact half turn, i.e. quaternion w = 0)."""
   q, qd = [], []
   for l in model['links']:
     if l['root'] == 'free':
       quat = np.array([r.gauss(0, 1) for _ in range(4)])
+      if r.random() < special:
+        quat[0] = 0.0
+        if r.random() < 0.5:
+          quat = np.array(r.choice([[0, 1, 0, 0], [0, 0.6, 0, 0.8], [0, 0, 0, 1], [0, 0.36, 0.48, 0.8]]), float)
       quat /= np.linalg.norm(quat)
       pos = [r.uniform(-1, 1), r.uniform(-1, 1), r.uniform(-1, 1) if root_height is None else root_height]
       q += pos + quat.tolist()
       qd += [r.uniform(-qdscale, qdscale) for _ in range(6)]
     else:
-      q += [r.uniform(-qscale, qscale) for _ in l['stack']]
+      q += [r.choice([0.0, 1e-4, -1e-4, 3e-4]) if r.random() < special else r.uniform(-qscale, qscale) for _ in l['stack']]
       qd += [r.uniform(-qdscale, qdscale) for _ in l['stack']]
   return q, qd
